@@ -7,98 +7,36 @@ import (
 	"github.com/smarthome-go/homescript/v3/homescript/lexer"
 )
 
-// Stub lexer for parser harnesses: serves a scripted token sequence whose
-// token KINDS are solver variables. Inside the engine `(*Lexer).NextToken` is
-// overridden by verifStubNextToken; natively (replay) the kinds are rendered
-// back to text and the real lexer is used.
+type verifStubTok = lexer.VerifStubTok
 
-type verifStubTok struct {
-	kind  lexer.TokenKind
-	value string
-	isErr bool
-}
-
-var verifStub struct {
-	toks   []verifStubTok
-	pos    int
-	sticky bool // a lexer error that does not consume input is returned again by every later call (illegal character)
-}
-
-func verifStubNextToken(l *lexer.Lexer) (lexer.Token, *errors.Error) {
-	n := uint(verifStub.pos)
-	loc := errors.Location{Line: 1, Column: 1 + 2*n, Index: 2 * n}
-	span := errors.Span{Start: loc, End: loc, Filename: "f.hms"}
-	if verifStub.pos >= len(verifStub.toks) {
-		return lexer.Token{Kind: lexer.EOF, Value: "EOF", Span: span}, nil
-	}
-	t := verifStub.toks[verifStub.pos]
-	if !(t.isErr && verifStub.sticky) {
-		verifStub.pos++
-	}
-	if t.isErr {
-		return lexer.UnknownToken(loc), errors.NewError(span, "illegal character", errors.SyntaxError)
-	}
-	return lexer.Token{Kind: t.kind, Value: t.value, Span: span}, nil
-}
-
-func verifStubKindString(k lexer.TokenKind) string { return "<token>" }
-
-const verifMaxKind = uint8(lexer.Identifier)
-
-var verifIdentValues = []string{"x", "on", "main"}
-
-// verifDrawTokens draws L tokens with symbolic kinds; errPos (if >= 0) is a lexer error.
+// verifDrawTokens draws <= L tokens with symbolic kinds; one position may be a lexer error.
 func verifDrawTokens(L int) []verifStubTok {
 	n := errors.VerifNdIntRange("ntok", 0, L)
 	errPos := errors.VerifNdIntRange("errpos", -1, n-1)
 	toks := make([]verifStubTok, n)
 	for i := range toks {
 		if i == errPos {
-			toks[i] = verifStubTok{isErr: true}
+			toks[i] = verifStubTok{IsErr: true}
 			continue
 		}
 		k := errors.VerifNdByte(fmt.Sprintf("k%d", i))
-		errors.VerifAssume(k <= verifMaxKind)
+		errors.VerifAssume(k <= lexer.VerifMaxKind)
 		errors.VerifAssume(k > uint8(lexer.EOF))
 		kind := lexer.TokenKind(k)
-		val := ""
-		switch kind {
-		case lexer.Identifier:
-			val = verifIdentValues[errors.VerifNdIntRange(fmt.Sprintf("id%d", i), 0, len(verifIdentValues)-1)]
-		case lexer.Int:
-			val = "1"
-		case lexer.Float:
-			val = "1.5"
-		case lexer.String:
-			val = "s"
-		}
-		toks[i] = verifStubTok{kind: kind, value: val}
+		toks[i] = verifStubTok{Kind: kind, Value: lexer.VerifValueFor(kind, fmt.Sprintf("id%d", i))}
 	}
 	return toks
 }
 
-// verifRender turns the token sequence back into source text for the real lexer.
-func verifRender(toks []verifStubTok) string {
-	s := ""
-	for _, t := range toks {
-		if t.isErr {
-			// '§' is an illegal character (the lexer does not consume it: sticky); an unknown escape is consumed
-			s += "§ "
-			continue
-		}
-		switch t.kind {
-		case lexer.Identifier, lexer.Int, lexer.Float:
-			s += t.value
-		case lexer.String:
-			s += "\"" + t.value + "\""
-		case lexer.Underscore:
-			s += "_"
-		default:
-			s += t.kind.String()
-		}
-		s += " "
+// verifParserFor builds a parser over the script: stub lexer in the engine, real lexer on the rendered text natively.
+func verifParserFor(toks []verifStubTok, sticky bool) Parser {
+	if errors.VerifIsSymbolic() {
+		lexer.VerifStubSet(toks, sticky)
+		return NewParser(lexer.NewLexer("", lexer.VerifStubFile), lexer.VerifStubFile)
 	}
-	return s
+	text := lexer.VerifRender(toks)
+	fmt.Printf("VERIF-DEBUG text: %q\n", text)
+	return NewParser(lexer.NewLexer(text, lexer.VerifStubFile), lexer.VerifStubFile)
 }
 
 // VerifHarness_ParseTokens: Parse never panics and terminates on any sequence of <= L tokens
@@ -106,23 +44,13 @@ func verifRender(toks []verifStubTok) string {
 func VerifHarness_ParseTokens() {
 	L := errors.VerifParam("L", 4)
 	toks := verifDrawTokens(L)
-	var p Parser
 	sticky := false
 	for _, t := range toks {
-		if t.isErr {
+		if t.IsErr {
 			sticky = errors.VerifNdIntRange("sticky", 0, 1) == 1
 		}
 	}
-	if errors.VerifIsSymbolic() {
-		verifStub.toks = toks
-		verifStub.pos = 0
-		verifStub.sticky = sticky
-		p = NewParser(lexer.NewLexer("", "f.hms"), "f.hms")
-	} else {
-		text := verifRender(toks)
-		fmt.Printf("VERIF-DEBUG text: %q\n", text)
-		p = NewParser(lexer.NewLexer(text, "f.hms"), "f.hms")
-	}
+	p := verifParserFor(toks, sticky)
 	panicked, msg := errors.VerifPanics(func() { p.Parse() })
 	if panicked {
 		errors.VerifTag("panic", errors.VerifNorm(msg))
